@@ -3,6 +3,8 @@
 package c03
 
 import (
+	"strings"
+
 	plush "github.com/gobuffalo/plush/v5"
 	"github.com/gobuffalo/plush/v5/parser"
 
@@ -17,6 +19,7 @@ func init() {
 	vrt.Register("C03_tokens", Tokens)
 	vrt.Register("C03_template_api", TemplateAPI)
 	vrt.Register("C03_histories", Histories)
+	vrt.Register("C03_near_valid", NearValid)
 }
 
 var framings = [][2]string{
@@ -162,4 +165,59 @@ func Histories() {
 		vrt.Assert(e4 != nil, "Render fails when Parse fails")
 	}
 	vrt.Cover("done")
+}
+
+// ---- one token edit away from a valid template of every construct: the parser
+// is deep inside a construct when it meets the wrong token (an else-if whose
+// condition is a comma, a hash whose value is a brace, a call whose block is cut)
+var validPrograms = []string{
+	`<% if ( a ) { } else if ( b ) { } else { } %>`,
+	`<%= if ( a == 1 ) { %> x <% } else if ( ! b ) { %> y <% } else { %> z <% } %>`,
+	`<%= for ( k , v ) in xs { %> t <% } %>`,
+	`<% for ( v ) in f ( 1 ) { break } %>`,
+	`<% let f = fn ( p , q ) { return p + q } %>`,
+	`<%= f ( 1 , "s" , { a : 1 , "b" : c } ) { %> x <% } %>`,
+	`<%= a.b [ 0 ] . c ( 1 ) . d %>`,
+	`<% x [ 1 ] = [ 1 , 2 , [ 3 ] ] %>`,
+	`<%= { "a" : 1 , b : [ 2 ] } %>`,
+	`<% let x = ( 1 + 2 ) * 3 - 4 / 5 %>`,
+	`<%= a && b || ! c ~= "r" %>`,
+	`<%# c %> <%= x %>`,
+	`<% for ( v ) in xs { if ( v ) { continue } else { break } } %>`,
+	`<%= partial ( "p" , { x : 1 } ) %>`,
+	`<% let a = fn ( ) { } %> <%= a ( ) %>`,
+	`<%= for ( i , v ) in [ 1 , 2 ] { %> <%= if ( v ) { %> a <% } %> <% } %>`,
+	`<% a = b %> <% return c %>`,
+}
+
+var editVocab = []string{
+	"(", ")", "{", "}", "[", "]", ",", ":", ".", "=", "==", "!", "if", "else", "for", "in", "fn", "let", "return", "break",
+	"a", "7", "\"s\"", "%>", "<%", "<%=", "+", "&&", "#", "\n", "continue", "nil", "true", "1.5", "a.b", "<%#", ";", "|", "`s`", "~=",
+}
+
+func edit(toks []string, nv int) []string {
+	p := vrt.Choice(len(toks))
+	out := make([]string, 0, len(toks)+1)
+	out = append(out, toks[:p]...)
+	switch vrt.Choice(3) {
+	case 0: // delete
+	case 1: // replace
+		out = append(out, editVocab[vrt.Choice(nv)])
+	default: // insert before
+		out = append(out, editVocab[vrt.Choice(nv)], toks[p])
+	}
+	return append(out, toks[p+1:]...)
+}
+
+func NearValid() {
+	toks := strings.Split(validPrograms[vrt.Choice(len(validPrograms))], " ")
+	nv := 20
+	if vrt.Tier() > 0 {
+		nv = len(editVocab)
+	}
+	toks = edit(toks, nv)
+	if vrt.Tier() > 0 && vrt.Choice(2) == 1 {
+		toks = edit(toks, 8) // a second edit from the bracket / comma subset
+	}
+	total(strings.Join(toks, " "))
 }
